@@ -57,7 +57,7 @@ def generate(X):
     seen = {}
     for t in C.templates("function"):
         name = C.canonical_func(t)
-        if name not in handled:
+        if name not in handled or hasattr(t, "alias_kind"):  # derived aliasing templates: Generated/C06Alias.lean
             continue
         for sc in t.shapes:
             for dk in t.dtypes:
